@@ -3,7 +3,8 @@
 E1: every wavefront-sensor configuration of a bounded lattice (number of sensors x 0/1 masks
 x guide-star kinds x sub-aperture sizes, crossed inside each case with every non-empty
 subset of three layers and every wavelength assignment) is built with the REAL
-aotools CovarianceMatrix (serial path, and the multi-process path through an in-line pool)
+aotools CovarianceMatrix (serial path, and the multi-process path through the controlled in-line pool of
+mc.sched.patched_pools)
 and compared entry by entry with an independent reference (mc/refmodels/slopes.py) that goes
 from the stated geometry through the von Karman covariance B(r), sample point by sample
 point, and knows nothing about blocks, separations, flips or mirroring.
@@ -27,7 +28,8 @@ LEVEL = "exploration"
 TECHNIQUE = ("bounded exhaustive enumeration of sensor configurations (sensor count x masks x "
              "guide-star kinds x sub-aperture sizes x layer subsets x wavelength assignments) on the "
              "real builder, entrywise comparison with an independent sample-point reference model, "
-             "plus exact additivity / scaling relations between lattice points")
+             "plus additivity / scaling / layer-order relations (up to float32 rounding) between lattice points, "
+             "call histories on one object (repeat, re-assigned attributes, held results) and argument spellings")
 RULE = ("case = ordered tuple of sensors (mask bits, guide-star kind, sub-aperture size option); inside "
         "a case every non-empty subset of the 3 layers and every wavelength assignment in {500,700 nm}^n "
         "is built. Enumerated tuples: see BOUNDS (full products where stated, otherwise the listed "
@@ -37,12 +39,36 @@ ASSUMPTIONS = [
     "geometry as stated for the builder: pixel (i0,i1) -> i*d - D/2 - d/2 in the pupil, cone factor "
     "1 - h/h_gs about the pupil origin, translation theta*h; slope = lambda/(2 pi) x finite difference "
     "of the layer phase across the projected sub-aperture / projected diameter; axis 'x' = first array axis",
-    "configurations outside the lattice (other D, offsets, altitudes, r0, L0, grids > 3x3, > 3 sensors) "
-    "are not covered; r0 and wavelength directions are extended by the exact scaling clauses",
+    "PUPIL ORIGIN CONVENTION (assumed, not derived from the statement): 'the geometrically projected sub-aperture "
+    "positions' are read with the builder's documented reference point  i*d - D/2 - d/2  of mask pixel i (both "
+    "axes), i.e. the point about which the cone factor shrinks the footprint is the one this convention calls the "
+    "pupil origin; it is one sub-aperture away from the geometric centre (i+1/2)*d - D/2 of the pixel.  The "
+    "difference is invisible for NGS-only systems with equal sub-aperture sizes and shifts LGS footprints by "
+    "d*h/h_gs otherwise.  A change of the library to geometric centres would be reported by `entrywise` and has to "
+    "be triaged as a change of convention, not as a defect",
+    "calling convention: sequence arguments are handed over as Python lists (per-sensor masks as int ndarrays), as "
+    "the repository's own test does; that lists are accepted is an assumed contract (the docstring says ndarray). "
+    "Other spellings (ndarrays, tuples, float/bool masks, Python ints, one shared mask object, ndarray mixed with "
+    "lists) are compared with the list form up to rounding in the `forms:*` cases",
+    "configurations outside the lattice and the listed special / geometry cases (other offsets, altitudes, r0, L0) "
+    "are not covered; r0 and wavelength directions are extended by the scaling clauses; guide stars BELOW a layer "
+    "(cone factor <= 0) are not covered: the statement does not say what such a layer contributes",
     "entrywise tolerance 2e-3 relative to |ref| + 0.005 max|ref| (the builder's published constant 0.17253 "
     "vs 2 B(0) = 0.172629 alone gives 5.7e-4; float32 storage adds ~1e-7)",
-    "the multi-process path is run through an in-line stand-in for multiprocessing.Pool (map = serial map); "
-    "real scheduling is the subject of C03",
+    "'up to single-precision rounding': symmetry is |M_ij - M_ji| <= max(4, n_layers + 2) eps32 sqrt(M_ii M_jj); "
+    "additivity, r0 / wavelength scaling, layer order and agreement of the two assembly paths are "
+    "max(1e-6, (n_layers + 2) eps32) relative to max|M| (float32 accumulation over layers)",
+    "the multi-process path is run through the controlled in-line pool of mc.sched.patched_pools (FIFO completion, "
+    "full Pool API, every import style); if the library fails under that pool but succeeds with the real "
+    "multiprocessing pool the stand-in is at fault: counted as mp_inline_pool_not_claimed and the real pool's result "
+    "is judged.  Real scheduling is the subject of C03",
+    "one object built repeatedly: the statement does not say whether attributes re-assigned after construction are "
+    "honoured; the check only demands UNIFORM semantics - every build equals a fresh object with the current "
+    "attributes, or every build equals the first build (configuration frozen at construction); a mixture is a "
+    "violation.  An attribute that cannot be re-assigned (setattr raises) is skipped",
+    "degenerate inputs: a sensor whose mask has no active sub-aperture, and more guide-star directions than "
+    "sensors, are judged only if the builder accepts them (its values must then be right); a builder that raises "
+    "on them is not judged (empty_mask_not_claimed / form_extra_gs_position_rows_not_claimed)",
     "trusted: scipy.special.kv / gamma, numpy.linalg.eigvalsh and the reference model",
 ]
 ENGINES = ["E1-product-enumeration"]
@@ -51,10 +77,14 @@ LEVEL_TEXT = ("Every sensor tuple of the stated lattice is enumerated (quick: al
               "guide-star pairs x 4 size pairs x 5 equal-grid and 3 mixed-grid mask pairs for two sensors, all 216 guide-star triples x 3 "
               "mask classes for three; thorough: the full product masks^2 x kinds^2 x sizes^2 for two sensors, "
               "all 255 3x3 masks with <= 4 cells, all guide-star triples x size triples). Each is crossed with "
-              "all 7 layer subsets and all wavelength assignments and compared entrywise with the reference.")
+              "all 7 layer subsets and all wavelength assignments and compared entrywise with the reference. "
+              "Spot cases beyond the lattice: explicit atmospheres, 1248-2490 row matrices, non-square masks, "
+              "4/5/6 sensors, an all-zero mask among several, telescope diameters 1.5 / 4.2 / 7.0 m.")
 LEVEL_NOTE = ("Trusted: the reference model mc/refmodels/slopes.py + vonkarman.py (self-checked against a "
               "brute-force Hankel quadrature), scipy kv. Not covered: geometries and atmospheres off the "
-              "lattice (r0/wavelength covered by exact scaling), grids larger than 3x3, more than 3 sensors.")
+              "lattice (r0/wavelength covered by the scaling clauses); grids larger than 3x3, non-square masks, more "
+              "than 3 sensors and other telescope diameters only through the listed spot cases; layers above a "
+              "laser guide star; the pupil origin is the builder's documented convention (see ASSUMPTIONS).")
 
 D_TEL = 2.0
 LAYERS = [(0.0, 0.2, 25.0), (5000.0, 0.3, 10.0), (12000.0, 0.5, 100.0)]
@@ -78,6 +108,20 @@ TOL_PSD = 1e-5
 TOL_ADD = 1e-6
 TOL_SCALE = 1e-6
 TOL_MP = 1e-6
+EPS32 = float(numpy.finfo(numpy.float32).eps)
+
+
+def _tol_sum(n_layers):
+    """tolerance (relative to max|M|) of the relations between float32 matrices that are each a float32 running sum
+    over layers: every `+=` rounds once, so the error grows with the number of layers.  The unchanged library measures
+    1.1e-7 (3 layers) and 2.3e-7 (12 layers); 1e-6 resp. 1.7e-6 leave a factor >= 4."""
+    return max(1e-6, (n_layers + 2) * EPS32)
+
+
+def _tol_sym(n_layers):
+    """|M_ij - M_ji| / sqrt(M_ii M_jj): two triangles that are computed (not copied) may differ by one float32 rounding
+    per accumulated layer.  The unchanged library mirrors bit by bit and measures 0."""
+    return max(4, n_layers + 2) * EPS32
 
 MASKS2 = ["2:" + "".join(b) for b in itertools.product("01", repeat=4) if "1" in b]
 NAMED3 = {"full": "3:111111111", "L": "3:100100111", "diag": "3:100010001",
@@ -121,11 +165,41 @@ SPECIALS.append(("huge:3xcirc16", [("circ16", "N0", "d1"), ("circ16", "L90o", "d
 SPECIALS.append(("huge:circ23+circ16", [("circ23", "L90o", "d1"), ("circ16", "N0", "d2")], "r0=0.2m+12m", "75", "both"))
 SPECIALS.append(("huge:3xcirc23", [("circ23", "N0", "d1"), ("circ23", "L20", "d1"), ("circ23", "Nxy", "d2")], "L0=1km", "557", "thorough"))
 
+# geometry spot cases beyond the lattice: explicit telescope diameter D, sensors (mask, d [m], h_gs [m], direction
+# [arcsec], wavelength [nm]) and layers.  Non-square masks (R x C), 4 / 5 / 6 sensors (block offsets and the pair
+# index of the multi-process path beyond 6 pairs), an all-zero mask among several sensors, D with D/2 not a whole
+# number and d unrelated to D/n.  All guide stars are above every layer.
+GEO = {
+    "2x3+3x2": (2.0, [("2x3:110111", 0.7, 0.0, (-20.0, 25.0), 500), ("3x2:101101", 0.5, 90000.0, (15.0, -35.0), 700)], LAYERS),
+    "1x4:L20": (2.0, [("1x4:1101", 0.5, 20000.0, (0.0, 0.0), 500)], LAYERS),
+    "4x2+2x2+1x3": (2.0, [("4x2:10110111", 0.5, 0.0, (30.0, 0.0), 500), ("2:1011", 1.0, 20000.0, (0.0, 0.0), 700),
+                          ("1x3:111", 0.6, 90000.0, (-10.0, 5.0), 500)], LAYERS),
+    "4sensors": (2.0, [("2:1110", 1.0, 0.0, (0.0, 0.0), 500), ("3:110001010", 2.0 / 3.0, 90000.0, (15.0, -35.0), 700),
+                       ("2:1111", 0.5, 20000.0, (0.0, 0.0), 500), ("3:100100111", 2.0 / 3.0, 0.0, (-20.0, 25.0), 700)], LAYERS),
+    "5sensors": (2.0, [("2:1011", 1.0, 0.0, (30.0, 0.0), 500), ("3:100010001", 2.0 / 3.0, 90000.0, (0.0, 0.0), 700),
+                       ("2:0110", 0.5, 20000.0, (0.0, 0.0), 500), ("3:110001010", 1.0 / 3.0, 0.0, (-20.0, 25.0), 500),
+                       ("2:1111", 1.0, 90000.0, (15.0, -35.0), 700)], LAYERS),
+    "6sensors": (2.0, [("2:1110", 1.0, 90000.0, (10.0, 0.0), 500), ("2:1111", 1.0, 90000.0, (5.0, 8.66), 700),
+                       ("3:100100111", 2.0 / 3.0, 90000.0, (-5.0, 8.66), 500), ("2:0111", 0.5, 0.0, (-10.0, 0.0), 500),
+                       ("1x2:11", 1.0, 20000.0, (-5.0, -8.66), 700), ("2:1001", 1.0, 0.0, (5.0, -8.66), 500)], LAYERS[:2]),
+    "emptymask:middle": (2.0, [("2:1110", 1.0, 0.0, (0.0, 0.0), 500), ("2:0000", 1.0, 90000.0, (15.0, -35.0), 700),
+                               ("2:0110", 1.0, 20000.0, (0.0, 0.0), 500)], LAYERS),
+    "emptymask:first": (2.0, [("2:0000", 1.0, 0.0, (30.0, 0.0), 500), ("2:1011", 0.5, 20000.0, (0.0, 0.0), 700)], LAYERS),
+    "D=1.5": (1.5, [("2:1110", 0.9, 0.0, (0.0, 0.0), 500), ("3:110001010", 0.4, 20000.0, (0.0, 0.0), 700)], LAYERS),
+    "D=4.2": (4.2, [("3:100100111", 1.3, 0.0, (-20.0, 25.0), 500), ("2:1011", 0.9, 20000.0, (0.0, 0.0), 500)], LAYERS),
+    "D=7.0": (7.0, [("3:110001010", 1.3, 90000.0, (15.0, -35.0), 700), ("3:111101111", 0.9, 0.0, (30.0, 0.0), 500),
+                    ("2:1101", 3.1, 20000.0, (0.0, 0.0), 500)], LAYERS),
+}
+
 
 def mask_array(name):
+    """'n:bits' (n x n) or 'RxC:bits' (R rows, C columns), row-major"""
     n, bits = name.split(":")
-    n = int(n)
-    return numpy.array([int(b) for b in bits], dtype=int).reshape(n, n)
+    if "x" in n:
+        r, c = (int(v) for v in n.split("x"))
+    else:
+        r = c = int(n)
+    return numpy.array([int(b) for b in bits], dtype=int).reshape(r, c)
 
 
 def point_symmetric(name):
@@ -139,8 +213,11 @@ def BOUNDS(tier):
             "wavelengths_nm": [500, 700], "kinds": {k: list(map(_plain, v)) for k, v in KINDS.items()},
             "subap_size_options": {"d1": "D/n", "d2": "D/(2n)"},
             "masks_2x2": MASKS2, "masks_3x3_named": NAMED3, "special_cases(explicit atmospheres; 1248-2490 row matrices)": {"atmospheres": EXTREME_LAYERS, "cases": [x[0] for x in SPECIALS]}, "big_grids(5x5,7x7,8x8)": {"masks": BIG, "tuples": [[list(x) for x in t] for t in BIG_TUPLES]},
+            "geometry_cases(D, [(mask, d, h_gs, direction_arcsec, wavelength_nm)], layers)": {k: [v[0], [list(map(_plain, x)) for x in v[1]], list(map(list, v[2]))] for k, v in GEO.items()},
+            "form_cases": [[list(x) for x in f] for f in FORM_SPECS],
+            "reassign_history": "one object, 11 single-attribute re-assignments then 8 back to the start, threads 1 and 2",
             "masks_3x3_le4cells": len(MASKS3_LE4) if tier == "thorough" else 0,
-            "tuples": _tuple_rule(tier), "r0_scale_factor": 2.0, "threads": [1, 2]}
+            "tuples": _tuple_rule(tier), "r0_scale_factor": 2.0, "threads": [1, 2], "threads_geometry_cases": [1, 2, 3]}
 
 
 def _plain(v):
@@ -255,6 +332,7 @@ FORM_SPECS = [
     [("2:1111", "N0", "d1")],
     [("2:1110", "N0", "d1"), ("2:1111", "L90", "d1")],
     [("2:1111", "N0", "d1"), ("2:1011", "Nx", "d2"), ("2:1111", "L20", "d1")],
+    [("2:1110", "N0", "d1"), ("2:1110", "L90o", "d1"), ("2:1110", "Nx", "d2")],      # equal masks: one shared mask object
 ]
 
 
@@ -268,16 +346,29 @@ def cases(tier):
     for name, spec, atm, wl, tiers in SPECIALS:
         if tiers == "both" or tiers == tier:
             yield Case("special:" + name, {"kind": "special", "spec": [list(x) for x in spec], "atm": atm, "wl": wl}, True)
+    for name in GEO:
+        yield Case("geo:" + name, {"kind": "geo", "name": name}, True)
 
 
 # ----------------------------------------------------------------------------- the real code
 
 class _InlinePool(object):
-    def __init__(self, processes=None):
+    """minimal serial pool (kept for modules that import the name; C01 itself runs the multi-process path under
+    mc.sched.patched_pools, which provides the whole Pool API for every import style)"""
+
+    def __init__(self, processes=None, *a, **kw):
         self.processes = processes
 
-    def map(self, fn, args):
+    def map(self, fn, args, chunksize=None):
         return [fn(a) for a in args]
+
+    def starmap(self, fn, args, chunksize=None):
+        return [fn(*a) for a in args]
+
+    def imap(self, fn, args, chunksize=1):
+        return iter([fn(a) for a in args])
+
+    imap_unordered = imap
 
     def close(self):
         pass
@@ -286,6 +377,12 @@ class _InlinePool(object):
         pass
 
     terminate = close
+
+    def __enter__(self):
+        return self
+
+    def __exit__(self, *exc):
+        return False
 
 
 class _InlineMP(object):
@@ -303,22 +400,55 @@ def _sensor_dicts(spec, wl):
     return out
 
 
-def build(sensors, layers, threads=1):
+_MP_REAL_POOL = [0]         # builds of this case whose in-line pool failed while the real pool worked
+
+
+def make_matrix(cm):
+    """cm.make_covariance_matrix() with every process pool the library can reach replaced by the controlled in-line
+    pool (FIFO).  The stand-in is instrumentation of the check: if it cannot be installed, or the library raises
+    under it, the build is repeated with the real multiprocessing pool; only an exception that the real pool shows
+    as well is the library's (it escapes and is reported as `no_exception`)."""
+    ctx = None
+    try:
+        from mc import sched
+        ctx = sched.patched_pools(None)
+        ctx.__enter__()
+    except Exception:
+        if ctx is not None:
+            try:
+                ctx.__exit__(None, None, None)
+            except Exception:
+                pass
+        ctx = None
+    if ctx is not None:
+        try:
+            try:
+                return cm.make_covariance_matrix()
+            finally:
+                try:
+                    ctx.__exit__(None, None, None)
+                except Exception:
+                    pass
+        except Exception:
+            if getattr(cm, "threads", 2) == 1:
+                raise           # no pool involved: the library's own exception
+    M = cm.make_covariance_matrix()
+    _MP_REAL_POOL[0] += 1
+    return M
+
+
+def build(sensors, layers, threads=1, D=None):
     """the matrix returned by the real builder"""
     from aotools.turbulence import slopecovariance as sc
+    D = D_TEL if D is None else D
     cm = sc.CovarianceMatrix(
-        len(sensors), [s["mask"].copy() for s in sensors], D_TEL, [s["d"] for s in sensors],
+        len(sensors), [s["mask"].copy() for s in sensors], D, [s["d"] for s in sensors],
         [s["h_gs"] for s in sensors], [list(s["theta"]) for s in sensors], [s["lam"] for s in sensors],
         len(layers), [l[0] for l in layers], [l[1] for l in layers], [l[2] for l in layers], threads)
     with numpy.errstate(all="ignore"):      # a NaN entry is judged by the `finite` clause, not printed
         if threads == 1:
             return cm.make_covariance_matrix()
-        saved = sc.multiprocessing
-        sc.multiprocessing = _InlineMP
-        try:
-            return cm.make_covariance_matrix()
-        finally:
-            sc.multiprocessing = saved
+        return make_matrix(cm)
 
 
 def _blocks(sensors):
@@ -339,6 +469,42 @@ def _maxabs(a):
         return 0.0
     m = numpy.max(numpy.abs(a))
     return float(m) if m == m else float("inf")
+
+
+def _asym(M64):
+    """max |M_ij - M_ji| / sqrt(M_ii M_jj)  (0 for a bit-symmetric matrix; an entry that is NaN on both sides is
+    the `finite` clause's business; a difference where the diagonal gives no scale counts as infinite)"""
+    if M64.size == 0:
+        return 0.0
+    with numpy.errstate(all="ignore"):
+        d = numpy.abs(M64 - M64.T)
+        d = numpy.where(numpy.isnan(M64) & numpy.isnan(M64.T), 0.0, d)
+        g = numpy.sqrt(numpy.clip(numpy.nan_to_num(numpy.diag(M64)), 0.0, None))
+        r = numpy.where(d == 0, 0.0, d / (g[:, None] * g[None, :]))
+    r = numpy.where(numpy.isnan(r), numpy.inf, r)
+    return float(numpy.max(r))
+
+
+def _rel(a, b):
+    """max|a - b| / max|b| of two matrices (inf when the shapes differ; NaN on both sides is not a difference)"""
+    a, b = numpy.asarray(a, dtype=float), numpy.asarray(b, dtype=float)
+    if a.shape != b.shape:
+        return float("inf")
+    if a.size == 0:
+        return 0.0
+    diff = numpy.where(numpy.isnan(a) & numpy.isnan(b), 0.0, a - b)
+    return _maxabs(diff) / max(_maxabs(numpy.nan_to_num(b)), 1e-300)
+
+
+def _blockmax(err, rs, cs):
+    e = err[rs, cs]
+    return float(numpy.max(e)) if e.size else 0.0
+
+
+def _emit_pool_stat(o):
+    if _MP_REAL_POOL[0]:
+        o.stat("mp_inline_pool_not_claimed", _MP_REAL_POOL[0])
+        _MP_REAL_POOL[0] = 0
 
 
 class _Agg(object):
@@ -366,11 +532,20 @@ class _Agg(object):
 
 
 def evaluate(p):
+    _MP_REAL_POOL[0] = 0
+    o = _evaluate(p)
+    _emit_pool_stat(o)
+    return o
+
+
+def _evaluate(p):
     o = Out()
     if p.get("kind") == "forms":
         return _forms(o, p["k"])
     if p.get("kind") == "special":
         return _special(o, p)
+    if p.get("kind") == "geo":
+        return _geo(o, p)
     if p.get("kind") == "reassign":
         return _reassign(o, p)
     spec = [tuple(s) for s in p["sensors"]]
@@ -378,7 +553,7 @@ def evaluate(p):
     base = "5" * n
     blocks = None
     entry = _Agg(TOL_ENTRY)
-    shape, sym, fin, psd = _Agg(0), _Agg(0), _Agg(0), _Agg(TOL_PSD)
+    shape, sym, fin, psd = _Agg(0), _Agg(_tol_sym(len(FULL))), _Agg(0), _Agg(TOL_PSD)
     built = {}
 
     def one(wl, lset, tag):
@@ -396,7 +571,7 @@ def evaluate(p):
         M64 = M.astype(float)
         finite = bool(numpy.all(numpy.isfinite(M64)))
         fin.add(0, 0 if finite else 1, tag)
-        sym.add(0, 0 if numpy.array_equal(M, M.T, equal_nan=True) else 1, tag)
+        sym.add(0, _asym(M64), tag)
         if finite:
             w = numpy.linalg.eigvalsh(0.5 * (M64 + M64.T))
             psd.add(0, max(0.0, -float(w[0])) / max(float(w[-1]), 1e-300), tag)
@@ -405,7 +580,7 @@ def evaluate(p):
         err = numpy.abs(M64 - ref) / (numpy.abs(ref) + ENTRY_FLOOR * _maxabs(ref))
         err = numpy.where(numpy.isfinite(err), err, numpy.inf)
         for label, rs, cs in _blocks(sensors):
-            entry.add(label, numpy.max(err[rs, cs]), tag)
+            entry.add(label, _blockmax(err, rs, cs), tag)
         return M
 
     # (c) every layer subset at the base wavelengths, every other wavelength assignment on all layers
@@ -429,7 +604,7 @@ def evaluate(p):
             continue
         tot = built[(base, lset)].astype(float)
         s = sum(x.astype(float) for x in parts)
-        o.close("additive_over_layers", _maxabs(tot - s) / max(_maxabs(s), 1e-300), TOL_ADD,
+        o.close("additive_over_layers", _maxabs(tot - s) / max(_maxabs(s), 1e-300), _tol_sum(len(lset)),
                 sub="L=" + "".join(map(str, lset)))
 
     Mfull = built.get((base, FULL))
@@ -440,7 +615,7 @@ def evaluate(p):
         M2 = numpy.asarray(build(sensors, [(h, 2.0 * r0, L0) for h, r0, L0 in LAYERS])).astype(float)
         o.stat("lib_calls", 1)
         c = 2.0 ** (-5.0 / 3.0)
-        o.close("r0_scaling", _maxabs(M2 - c * M0) / max(c * _maxabs(M0), 1e-300), TOL_SCALE)
+        o.close("r0_scaling", _maxabs(M2 - c * M0) / max(c * _maxabs(M0), 1e-300), _tol_sum(len(FULL)))
         # (f) wavelength of sensor i scales its rows and columns
         idx = slopes.slope_index(sensors)
         for wl in others:
@@ -450,7 +625,7 @@ def evaluate(p):
             f = numpy.array([WL[wl[k]] / WL[base[k]] for k, _, _ in idx])
             want = M0 * f[:, None] * f[None, :]
             o.close("wavelength_scaling", _maxabs(Mw.astype(float) - want) / max(_maxabs(want), 1e-300),
-                    TOL_SCALE, sub="wl=" + wl)
+                    _tol_sum(len(FULL)), sub="wl=" + wl)
         # "summed over layers": the sum does not depend on the order in which the layers are listed; a layer is
         # the triple (altitude, r0, L0).  Every permutation of the full layer set (float32 accumulation order
         # changes the last bits only).  Added after a seeded change sorted the altitudes but not the r0/L0 lists.
@@ -460,7 +635,7 @@ def evaluate(p):
                 continue
             Mp_ = numpy.asarray(build(sensors, [LAYERS[i] for i in perm])).astype(float)
             o.stat("lib_calls", 1)
-            o.close("layer_order_irrelevant", _maxabs(Mp_ - M0) / max(_maxabs(M0), 1e-300), TOL_ADD,
+            o.close("layer_order_irrelevant", _maxabs(Mp_ - M0) / max(_maxabs(M0), 1e-300), _tol_sum(len(FULL)),
                     sub="order=%s" % "".join(map(str, perm)))
         # multi-process assembly path (in-line pool), mixed wavelengths
         wl = ("57" * n)[:n]
@@ -473,16 +648,22 @@ def evaluate(p):
             else:
                 both_nan = numpy.isnan(Mp) & numpy.isnan(ser)      # NaN itself is the `finite` clause's business
                 diff = numpy.where(both_nan, 0.0, Mp.astype(float) - ser.astype(float))
-                o.close("mp_path_agrees", _maxabs(diff) / max(_maxabs(numpy.nan_to_num(ser)), 1e-300), TOL_MP)
+                o.close("mp_path_agrees", _maxabs(diff) / max(_maxabs(numpy.nan_to_num(ser)), 1e-300), _tol_sum(len(FULL)))
         o.outcome(numpy.round(M0 / max(_maxabs(M0), 1e-300), 4))
     return o
 
 
 def _reassign(o, p):
-    """One object used as in a fitting loop: a configuration attribute is re-assigned, the matrix is made again, and
-    must be the matrix of a fresh object with the current configuration (the builder derives the whole geometry from
-    its attributes on every build).  One attribute at a time, then all of them back to the start."""
+    """One object used as in a fitting loop: make the matrix, make it again, re-assign a configuration attribute,
+    make it again, ...  The statement does not say whether a re-assignment after construction is honoured, so only
+    UNIFORM semantics are demanded: either every build equals the matrix of a fresh object with the current attributes
+    (all re-assignments honoured) or every build equals the first build (configuration frozen at construction).  A
+    mixture - some attributes honoured, others stale - is the violation (`reassigned_object_equals_fresh_object`,
+    step by step against the fresh object).  An attribute that cannot be re-assigned is skipped.  Results handed out
+    earlier are kept, un-copied, across all later builds and must keep their bytes."""
     from aotools.turbulence import slopecovariance as sc
+    threads = p["threads"]
+    tol = _tol_sum(2)
     cfg = {"pupil_masks": [mask_array("2:1110"), mask_array("2:1011")], "telescope_diameter": D_TEL,
            "subap_diameters": [1.0, 1.0], "gs_altitudes": [0.0, 90000.0], "gs_positions": [[0.0, 0.0], [15.0, -35.0]],
            "wfs_wavelengths": [500e-9, 700e-9], "layer_altitudes": [0.0, 5000.0], "layer_r0s": [0.2, 0.3],
@@ -494,87 +675,143 @@ def _reassign(o, p):
              ("gs_positions", numpy.array([[0.0, 10.0], [5.0, 5.0]])), ("layer_altitudes", numpy.array([0.0, 5000.0]))]
     steps += [(k, v) for k, v in cfg.items() if k not in ("layer_altitudes",)]      # ... and back to the start
 
-    def make(c, threads):
-        cm = sc.CovarianceMatrix(2, [m.copy() for m in c["pupil_masks"]], c["telescope_diameter"], list(c["subap_diameters"]),
-                                 list(c["gs_altitudes"]), [list(x) for x in numpy.asarray(c["gs_positions"])], list(c["wfs_wavelengths"]), 2,
-                                 list(numpy.asarray(c["layer_altitudes"])), list(c["layer_r0s"]), list(c["layer_L0s"]), threads)
-        return cm
+    def make(c):
+        return sc.CovarianceMatrix(2, [m.copy() for m in c["pupil_masks"]], c["telescope_diameter"], list(c["subap_diameters"]),
+                                   list(c["gs_altitudes"]), [list(x) for x in numpy.asarray(c["gs_positions"])], list(c["wfs_wavelengths"]), 2,
+                                   list(numpy.asarray(c["layer_altitudes"])), list(c["layer_r0s"]), list(c["layer_L0s"]), threads)
 
-    def build(cm):
-        saved = sc.multiprocessing
-        sc.multiprocessing = _InlineMP
+    def raw(cm):
+        with numpy.errstate(all="ignore"):
+            return make_matrix(cm)
+
+    def val(cm):
+        return numpy.array(raw(cm), dtype=float)
+
+    held = []                   # (tag, returned object itself, its bytes when it was returned)
+
+    def hold(tag, M):
         try:
-            with numpy.errstate(all="ignore"):
-                return numpy.asarray(cm.make_covariance_matrix()).astype(float)
-        finally:
-            sc.multiprocessing = saved
+            held.append((tag, M, numpy.asarray(M).tobytes()))
+        except Exception:
+            pass
+        return numpy.array(M, dtype=float)
 
-    obj = make(cfg, p["threads"])
+    obj = make(cfg)
     cur = dict(cfg)
-    first = build(obj)
-    o.close("reassigned_object_equals_fresh_object", _maxabs(first - build(make(cur, p["threads"]))) / max(_maxabs(first), 1e-300), 0.0, sub="step=0:initial")
-    for k, (name, val) in enumerate(steps):
-        cur[name] = val
-        setattr(obj, name, val.copy() if isinstance(val, numpy.ndarray) else (list(val) if isinstance(val, list) else val))
-        got = build(obj)
-        want = build(make(cur, p["threads"]))
-        o.stat("lib_calls", 2)
-        if got.shape != want.shape:
-            o.check("reassigned_object_equals_fresh_object", False, sub="step=%d:%s" % (k + 1, name), detail="shape %s" % (got.shape,))
+    first = hold("build0", raw(obj))
+    o.close("reassigned_object_equals_fresh_object", _rel(first, val(make(cur))), tol, sub="step=0:initial")
+    # history the statement covers without any reading: the same object, made again with no edit in between
+    again = hold("build0-repeat", raw(obj))
+    o.close("repeated_build_equals_first_build", _rel(again, first), tol)
+    o.stat("lib_calls", 3)
+    rows = []
+    for k, (name, v) in enumerate(steps):
+        try:
+            setattr(obj, name, v.copy() if isinstance(v, numpy.ndarray) else (list(v) if isinstance(v, list) else v))
+        except Exception:
+            o.stat("reassign_%s_not_claimed" % name, 1)
             continue
-        o.close("reassigned_object_equals_fresh_object", _maxabs(got - want) / max(_maxabs(want), 1e-300), 1e-6,
-                sub="step=%d:%s" % (k + 1, name))
+        cur[name] = v
+        got = hold("step%d" % (k + 1), raw(obj))
+        want = val(make(cur))
+        o.stat("lib_calls", 2)
+        rows.append(("step=%d:%s" % (k + 1, name), got, want))
+    honoured = all(_rel(got, want) <= tol for _, got, want in rows)
+    frozen = all(_rel(got, first) <= tol for _, got, want in rows)
+    if frozen and not honoured:
+        # configuration frozen at construction, uniformly: every build is the first build
+        o.stat("reassign_frozen_at_construction", 1)
+        for sub, got, want in rows:
+            o.close("reassigned_object_equals_fresh_object", _rel(got, first), tol, sub=sub)
+    else:
+        for sub, got, want in rows:
+            o.close("reassigned_object_equals_fresh_object", _rel(got, want), tol, sub=sub)
+    # a matrix handed out earlier still is what it was when it was returned (compared byte by byte with itself)
+    bad = [tag for tag, M, b in held if numpy.asarray(M).tobytes() != b]
+    o.check("held_result_not_overwritten", not bad, n=len(held),
+            detail=None if not bad else "results of %s changed under later builds" % ",".join(bad))
     o.outcome(numpy.round(first / max(_maxabs(first), 1e-300), 4))
     return o
 
 
-def _special(o, p):
-    """one configuration with an explicit layer list: every clause of the statement on that build (entrywise
-    against the reference, symmetric, PSD, additive over its layers, r0 scaling, multi-process path)"""
-    spec = [(BIG.get(m, m), k, d) for m, k, d in p["spec"]]
-    layers = EXTREME_LAYERS[p["atm"]]
-    sensors = _sensor_dicts(spec, p["wl"])
-    M = numpy.asarray(build(sensors, layers))
+def _full_clauses(o, sensors, D, layers, threads=(2,)):
+    """one configuration: every clause of the statement on that build (entrywise against the reference, symmetric,
+    PSD, additive over its layers, r0 scaling, multi-process path)"""
+    nl = len(layers)
+    M = numpy.asarray(build(sensors, layers, D=D))
     o.stat("lib_calls", 1)
-    ref = slopes.slope_covariance(sensors, D_TEL, layers)
+    ref = slopes.slope_covariance(sensors, D, layers)
     N = ref.shape[0]
     o.check("shape", M.shape == (N, N), detail=M.shape)
     if M.shape != (N, N):
-        return o
+        return None
     M64 = M.astype(float)
     finite = bool(numpy.all(numpy.isfinite(M64)))
     o.check("finite", finite)
-    o.check("symmetric", bool(numpy.array_equal(M, M.T, equal_nan=True)),
-            detail=None if numpy.array_equal(M, M.T, equal_nan=True) else "max |M - M^T| / max|M| = %g" % (_maxabs(M64 - M64.T) / max(_maxabs(M64), 1e-300)))
+    o.close("symmetric", _asym(M64), _tol_sym(nl))
     if not finite:
-        return o
-    w = numpy.linalg.eigvalsh(0.5 * (M64 + M64.T))
-    o.close("psd", max(0.0, -float(w[0])) / max(float(w[-1]), 1e-300), TOL_PSD)
+        return None
+    if N:
+        w = numpy.linalg.eigvalsh(0.5 * (M64 + M64.T))
+        o.close("psd", max(0.0, -float(w[0])) / max(float(w[-1]), 1e-300), TOL_PSD)
     err = numpy.abs(M64 - ref) / (numpy.abs(ref) + ENTRY_FLOOR * _maxabs(ref))
     err = numpy.where(numpy.isfinite(err), err, numpy.inf)
     for label, rs, cs in _blocks(sensors):
-        o.close("entrywise", float(numpy.max(err[rs, cs])), TOL_ENTRY, sub="blk=%s" % label)
-    if len(layers) > 1 and N <= 600:
-        s_ = sum(numpy.asarray(build(sensors, [l])).astype(float) for l in layers)
-        o.stat("lib_calls", len(layers))
-        o.close("additive_over_layers", _maxabs(M64 - s_) / max(_maxabs(s_), 1e-300), TOL_ADD)
-    M2 = numpy.asarray(build(sensors, [(h, 2.0 * r0, L0) for h, r0, L0 in layers])).astype(float)
+        o.close("entrywise", _blockmax(err, rs, cs), TOL_ENTRY, sub="blk=%s" % label)
+    if nl > 1 and N <= 600:
+        s_ = sum(numpy.asarray(build(sensors, [l], D=D)).astype(float) for l in layers)
+        o.stat("lib_calls", nl)
+        o.close("additive_over_layers", _maxabs(M64 - s_) / max(_maxabs(s_), 1e-300), _tol_sum(nl))
+    M2 = numpy.asarray(build(sensors, [(h, 2.0 * r0, L0) for h, r0, L0 in layers], D=D)).astype(float)
+    o.stat("lib_calls", 1)
     c = 2.0 ** (-5.0 / 3.0)
-    o.close("r0_scaling", _maxabs(M2 - c * M64) / max(c * _maxabs(M64), 1e-300), TOL_SCALE)
-    Mp = numpy.asarray(build(sensors, layers, threads=2))
-    o.stat("lib_calls", 2)
-    if Mp.shape != M.shape:
-        o.check("mp_path_agrees", False, detail="shape %s" % (Mp.shape,))
-    else:
-        o.close("mp_path_agrees", _maxabs(Mp.astype(float) - M64) / max(_maxabs(M64), 1e-300), TOL_MP)
-    o.outcome((p["atm"], N))
+    o.close("r0_scaling", _rel(M2, c * M64), _tol_sum(nl))
+    for t in threads:
+        Mp = numpy.asarray(build(sensors, layers, threads=t, D=D))
+        o.stat("lib_calls", 1)
+        sub = None if t == 2 else "threads=%d" % t
+        if Mp.shape != M.shape:
+            o.check("mp_path_agrees", False, sub=sub, detail="shape %s" % (Mp.shape,))
+        else:
+            o.close("mp_path_agrees", _rel(Mp, M64), _tol_sum(nl), sub=sub)
+    return M64
+
+
+def _special(o, p):
+    """one configuration with an explicit layer list"""
+    spec = [(BIG.get(m, m), k, d) for m, k, d in p["spec"]]
+    layers = EXTREME_LAYERS[p["atm"]]
+    sensors = _sensor_dicts(spec, p["wl"])
+    M64 = _full_clauses(o, sensors, D_TEL, layers)
+    if M64 is not None:
+        o.outcome((p["atm"], M64.shape[0]))
+    return o
+
+
+def _geo(o, p):
+    """one geometry beyond the lattice (non-square masks, 4-6 sensors, an all-zero mask, other telescope diameters)"""
+    D, spec, layers = GEO[p["name"]]
+    sensors = [{"mask": mask_array(m), "d": d, "h_gs": h, "theta": tuple(th), "lam": w * 1e-9} for m, d, h, th, w in spec]
+    if any(int(s["mask"].sum()) == 0 for s in sensors):
+        # a sensor without any active sub-aperture is a degenerate member of "all 0/1 masks": a builder that refuses
+        # it is not judged; one that returns a matrix must return the right one (blocks of size 0 for that sensor)
+        try:
+            build(sensors, [tuple(l) for l in layers], D=D)
+        except Exception:
+            o.stat("empty_mask_not_claimed", 1)
+            return o
+    M64 = _full_clauses(o, sensors, D, [tuple(l) for l in layers], threads=(2, 3))
+    if M64 is not None:
+        o.outcome(numpy.round(M64 / max(_maxabs(M64), 1e-300), 4))
     return o
 
 
 def _forms(o, k):
     """The same configuration written in every common argument form - lists, tuples, numpy arrays, masks stored
-    as float (what aotools.circle returns), bool or small ints, whole-number parameters given as Python ints -
-    must give the bit-identical matrix: the matrix is a function of the configuration, not of its spelling."""
+    as float (what aotools.circle returns), bool or small ints, whole-number parameters given as Python ints, one
+    mask object shared by all sensors, ndarrays mixed with lists (the spellings of the repository's own test) - must
+    give the same matrix up to single-precision rounding: the matrix is a function of the configuration, not of its
+    spelling (bit identity and an equal dtype are not demanded: another spelling may be evaluated in another order)."""
     from aotools.turbulence import slopecovariance as sc
     spec = [tuple(x) for x in FORM_SPECS[k]]
     spec = [s for s in spec if s[1] in KINDS]
@@ -610,17 +847,28 @@ def _forms(o, k):
                                      lh=[whole(h) for h in base_args["lh"]], lL=[whole(L) for L in base_args["lL"]]),
         "numpy_scalars": dict(D=numpy.float64(D_TEL), ds=[numpy.float64(d) for d in base_args["ds"]],
                               lr=[numpy.float64(r) for r in base_args["lr"]]),
+        # the spellings of test/test_slopecovariance.py: altitudes as ndarray next to r0 / L0 lists, guide-star
+        # altitudes as Python ints, sub-aperture sizes as ndarray
+        "ndarray_mixed_with_lists": dict(lh=numpy.array(base_args["lh"]), ds=numpy.array(base_args["ds"]),
+                                         alts=[whole(a) for a in base_args["alts"]]),
     }
-    for name, over in forms.items():
+    if all(numpy.array_equal(m, base_args["masks"][0]) for m in base_args["masks"]):
+        forms["one_shared_mask_object"] = dict(masks=[base_args["masks"][0].astype(float)] * len(sensors))
+    # more guide-star directions listed than sensors (the repository's test lists 6 for 3 sensors): not part of the
+    # statement; if the builder accepts it the extra rows must be ignored, if it refuses nothing is claimed
+    optional = {"extra_gs_position_rows": dict(pos=base_args["pos"] + [[40.0, -40.0], [7.0, 9.0]])}
+    tol = _tol_sum(len(layers))
+    for name, over in list(forms.items()) + list(optional.items()):
         a = dict(base_args)
         a.update(over)
         try:
             got = call(**a)
             o.stat("lib_calls", 1)
-            ok = got.shape == base.shape and got.dtype == base.dtype and got.tobytes() == base.tobytes()
-            o.check("same_matrix_for_every_argument_form", ok, sub=name,
-                    measure=None if got.shape != base.shape else _maxabs(got - base))
+            o.close("same_matrix_for_every_argument_form", _rel(got, base), tol, sub=name)
         except Exception as e:
+            if name in optional:
+                o.stat("form_%s_not_claimed" % name, 1)
+                continue
             o.check("same_matrix_for_every_argument_form", False, sub=name,
                     detail="%s: %s" % (type(e).__name__, str(e)[:200]))
     return o
